@@ -108,6 +108,11 @@ fn original_peer_stream(side: &Side, shape: u8) -> Vec<u8> {
         *b = match shape {
             0 => 0,
             1 => if i < 8 { 0 } else { x as u8 },
+            2 => x as u8,
+            3 => if i >= 4 && i < 8 { [9u8, 0, 124, 2][i - 4] } else { 0 },
+            4 => if i >= 1504 { x as u8 } else { 0 },
+            5 => 0xFF,
+            6 => if i < 4 { 0xFF } else if i < 8 { 0 } else { (i % 251) as u8 },
             _ => x as u8,
         };
     }
@@ -348,6 +353,29 @@ pub fn run(run: &Run) {
             }
         }
     }
+    // digest-less peers of further shapes (version field set, all ones, mostly zero ...): every one-call prefix
+    // delivery (the canonical pass only), both roles
+    let mut shape_cases: Vec<StreamCase> = Vec::new();
+    for shape in 0..7u8 {
+        for role in [Role::Server, Role::Client] {
+            for speaks_first in [false, true] {
+                if !thorough && shape != 2 && speaks_first != (role == Role::Client) {
+                    continue;
+                }
+                let side = Side { role, seed: 77 + shape as u64, speaks_first };
+                let mut s = original_peer_stream(&side, shape);
+                s.extend_from_slice(&[0xA1, 0xA2, 0xA3]);
+                shape_cases.push(StreamCase { name: format!("library {:?} (speaks first: {}) fed a digest-less peer's stream of shape {} + 3 trailing bytes", role, speaks_first, shape), side, stream: s, expect_echo_of_peer_p1: true });
+            }
+        }
+    }
+    let mut shape_ok = 0u64;
+    for case in shape_cases.iter() {
+        if canonical(case, run, &calls).is_some() {
+            shape_ok += 1;
+        }
+    }
+    run.count("digestless_shape_streams_every_one_call_prefix", shape_ok);
     let mut total_edges = 0u64;
     let mut total_nodes = 0u64;
     let mut reports: Vec<Value> = Vec::new();
